@@ -347,7 +347,13 @@ pub fn c12_params(a: &Args) -> Report {
                 let iv = 1. + rng.below(120) as f64;
                 let mut p1 = p0.clone();
                 p1.intervals.insert(Prayer::Imsaak, iv);
-                if let Ok(t1) = calc(&p1, c.loc(), c.date, None) {
+                // with and without explicit weather, and also with a Shurooq-derived (interval-defined) Fajr:
+                // Imsaak is derived from the Fajr of the SAME computation
+                let wx = if rng.below(2) == 0 { None } else { Some(Weather { pressure: Pressure::try_from(rng.range(100., 1050.)).unwrap(), temperature: Temperature::try_from(rng.range(-90., 57.)).unwrap() }) };
+                if rng.below(3) == 0 {
+                    p1.intervals.insert(Prayer::Fajr, 30. + rng.below(90) as f64);
+                }
+                if let Ok(t1) = calc(&p1, c.loc(), c.date, wx) {
                     if let (Some(Ok(f)), Some(Ok(im))) = (t1.get(&Prayer::Fajr), t1.get(&Prayer::Imsaak)) {
                         let want = if f.extreme { iv } else { iv };
                         if sdiff(f.time_secs(), im.time_secs() + want * 60.).abs() > 1. {
